@@ -47,12 +47,16 @@ var c06Tails = [][]byte{nil, {0x00}, {0xff, 0xff, 0xff, 0xff, 0xff}, {0x30}, {0x
 // do: concrete types, Peek/Discard, io.ByteReader, io.WriterTo)
 var c06ReaderKinds = func() []string {
 	var s []string
-	for _, k := range env.AllKinds() {
+	for k := env.KRaw; k < env.NKinds; k++ { // index == env.Kind
 		s = append(s, k.String())
 	}
 	// buffering readers over a source that hands over a few bytes per Read:
 	// the buffer then ends inside frames, headers and length fields
 	for _, v := range c06Chunked {
+		if v.Chunk == -2 {
+			s = append(s, fmt.Sprintf("%s that hands over the first byte of the stream alone, then everything", v.K))
+			continue
+		}
 		if v.Chunk < 0 {
 			s = append(s, fmt.Sprintf("%s whose last bytes arrive together with io.EOF", v.K))
 			continue
@@ -71,7 +75,7 @@ var c06Chunked = []struct {
 	Chunk int
 	Zero  int // idle (0,nil) reads before every segment
 }{{env.KBufio4096, 1, 0}, {env.KBufio4096, 3, 0}, {env.KBufio4096, 7, 0}, {env.KRich, 2, 0}, {env.KBufio16, 5, 0}, {env.KBufioPrefetched, 4, 0},
-	{env.KRaw, 3, 1}, {env.KRaw, 1, 2}, {env.KLimited, 64, 1}, {env.KRaw, -1, 0}, {env.KBufio16, -1, 0}}
+	{env.KRaw, 3, 1}, {env.KRaw, 1, 2}, {env.KLimited, 64, 1}, {env.KRaw, -1, 0}, {env.KBufio16, -1, 0}, {env.KRaw, -2, 0}}
 
 type c06Stream struct {
 	r    io.Reader
@@ -82,7 +86,9 @@ func c06Open(kind int, stream []byte) c06Stream {
 	under := &env.Reader{Data: stream}
 	if n := int(env.NKinds); kind >= n {
 		v := c06Chunked[kind-n]
-		if v.Chunk < 0 {
+		if v.Chunk == -2 {
+			under.Pat = &env.Pattern{First: 1}
+		} else if v.Chunk < 0 {
 			under.MixEnd = true
 		} else {
 			under.Pat = &env.Pattern{Chunk: v.Chunk, ZeroBefore: v.Zero}
